@@ -5,10 +5,18 @@ From FV.C07 Require Import Model.
 
 Lemma pexp_eqb_eq a : forall b, pexp_eqb a b = true -> a = b.
 Proof.
-  induction a as [|e p IH|e p IH|e p IH]; intros b H; destruct b; simpl in H;
-    try discriminate; try reflexivity;
-    apply andb_prop in H; destruct H as [H1 H2];
-    apply String.eqb_eq in H1; apply IH in H2; subst; reflexivity.
+  induction a as [|e c IHc a IHa a' IHa'|e p IH|e p IH|e p IH]; intros b H; destruct b; simpl in H;
+    try discriminate; try reflexivity.
+  - apply andb_prop in H; destruct H as [H H4]. apply andb_prop in H; destruct H as [H H3].
+    apply andb_prop in H; destruct H as [H1 H2].
+    apply String.eqb_eq in H1. apply IHc in H2. apply IHa in H3. apply IHa' in H4.
+    subst; reflexivity.
+  - apply andb_prop in H; destruct H as [H1 H2];
+      apply String.eqb_eq in H1; apply IH in H2; subst; reflexivity.
+  - apply andb_prop in H; destruct H as [H1 H2];
+      apply String.eqb_eq in H1; apply IH in H2; subst; reflexivity.
+  - apply andb_prop in H; destruct H as [H1 H2];
+      apply String.eqb_eq in H1; apply IH in H2; subst; reflexivity.
 Qed.
 
 Lemma pmem_In e g : pmem e g = true -> In e g.
@@ -57,6 +65,31 @@ Proof.
   - apply Hu, Hx.
 Qed.
 
+Lemma unchanged_fdelete f0 s q :
+  unchanged f0 (fs s) -> f0 q = None -> unchanged f0 (fs (fdelete s q)).
+Proof.
+  intros Hu Hq x c Hx. simpl.
+  destruct (String.eqb x q) eqn:E.
+  - apply String.eqb_eq in E. subst. rewrite Hq in Hx. discriminate.
+  - apply Hu, Hx.
+Qed.
+
+Lemma unchanged_frename f0 s a b :
+  unchanged f0 (fs s) -> f0 a = None -> f0 b = None -> unchanged f0 (fs (frename s a b)).
+Proof.
+  intros Hu Ha Hb x c Hx. simpl.
+  destruct (String.eqb x b) eqn:E.
+  - apply String.eqb_eq in E. subst. rewrite Hb in Hx. discriminate.
+  - destruct (String.eqb x a) eqn:E2.
+    + apply String.eqb_eq in E2. subst. rewrite Ha in Hx. discriminate.
+    + apply Hu, Hx.
+Qed.
+
+Lemma tick_fs s s' : tick s = Some s' -> fs s' = fs s.
+Proof.
+  unfold tick. destruct (fuel s) as [[|k]|]; intro H; inversion H; reflexivity.
+Qed.
+
 Definition post (f0 : fsys) (name : string) (n r : oset) (res : outcome * st) : Prop :=
   unchanged f0 (fs (snd res)) /\
   (fst res = Normal -> osafe f0 name n) /\
@@ -84,7 +117,8 @@ Lemma run_sound f0 name : forall p g n r,
   safe f0 name g ->
   forall s, unchanged f0 (fs s) -> post f0 name n r (run name p s).
 Proof.
-  induction p as [|a IHa b IHb|e|e|e|a IHa b IHb|body IH|body IH| |];
+  induction p as [|a IHa b IHb|e|e|e|a IHa b IHb|body IH|body IH| | |e|ea eb
+                  |a IHa b IHb|a IHa b IHb];
     intros g n r Hc Hg s Hu; simpl in Hc.
   - (* Skip *) inversion Hc; subst. simpl. split; [exact Hu|]. split; [|discriminate].
     intros _. exists g; split; [reflexivity|exact Hg].
@@ -106,6 +140,8 @@ Proof.
       * split; [exact Hu'|]. split; [discriminate|]. exact Hr.
       * split; [exact Hu'|]. split; discriminate.
   - (* Guard *) inversion Hc; subst. simpl.
+    destruct (tick s) as [s0|] eqn:Et; [|split; [exact Hu|]; split; discriminate].
+    apply tick_fs in Et. rewrite <- Et in Hu. clear Et s. rename s0 into s.
     destruct (fs s (peval name e)) eqn:Ef; simpl.
     + split; [exact Hu|]. split; discriminate.
     + split; [exact Hu|]. split; [|discriminate]. intros _.
@@ -114,10 +150,14 @@ Proof.
         apply Hu in E0. rewrite E0 in Ef. discriminate.
       * apply Hg, Hx.
   - (* Create *) destruct (pmem e g) eqn:Em; [|discriminate]. inversion Hc; subst. simpl.
+    destruct (tick s) as [s0|] eqn:Et; [|split; [exact Hu|]; split; discriminate].
+    apply tick_fs in Et. rewrite <- Et in Hu. clear Et s. rename s0 into s.
     split; [|split; [|discriminate]].
     + apply unchanged_fwrite; [exact Hu|]. apply Hg, pmem_In, Em.
     + intros _. exists g; split; [reflexivity|exact Hg].
   - (* Append *) destruct (pmem e g) eqn:Em; [|discriminate]. inversion Hc; subst. simpl.
+    destruct (tick s) as [s0|] eqn:Et; [|split; [exact Hu|]; split; discriminate].
+    apply tick_fs in Et. rewrite <- Et in Hu. clear Et s. rename s0 into s.
     split; [|split; [|discriminate]].
     + apply unchanged_fwrite; [exact Hu|]. apply Hg, pmem_In, Em.
     + intros _. exists g; split; [reflexivity|exact Hg].
@@ -155,6 +195,45 @@ Proof.
   - (* Return *) inversion Hc; subst. simpl. split; [exact Hu|]. split; [discriminate|].
     intros _. exists g; split; [reflexivity|exact Hg].
   - (* Raise *) inversion Hc; subst. simpl. split; [exact Hu|]. split; discriminate.
+  - (* Delete *) destruct (pmem e g) eqn:Em; [|discriminate]. inversion Hc; subst. simpl.
+    destruct (tick s) as [s0|] eqn:Et; [|split; [exact Hu|]; split; discriminate].
+    apply tick_fs in Et. rewrite <- Et in Hu. clear Et s. rename s0 into s.
+    split; [|split; [|discriminate]].
+    + apply unchanged_fdelete; [exact Hu|]. apply Hg, pmem_In, Em.
+    + intros _. exists g; split; [reflexivity|exact Hg].
+  - (* Rename *) destruct (pmem ea g) eqn:Ea; [|discriminate].
+    destruct (pmem eb g) eqn:Eb; [|discriminate]. inversion Hc; subst. simpl.
+    destruct (tick s) as [s0|] eqn:Et; [|split; [exact Hu|]; split; discriminate].
+    apply tick_fs in Et. rewrite <- Et in Hu. clear Et s. rename s0 into s.
+    split; [|split; [|discriminate]].
+    + apply unchanged_frename; [exact Hu| |]; apply Hg, pmem_In; assumption.
+    + intros _. exists g; split; [reflexivity|exact Hg].
+  - (* Try *)
+    destruct (check g a) as [[na ra]|] eqn:Ea; [|discriminate].
+    destruct (check g b) as [[nb rb]|] eqn:Eb; [|discriminate].
+    inversion Hc; subst n r. simpl.
+    specialize (IHa g na ra Ea Hg s Hu).
+    destruct (run name a s) as [o s'] eqn:Er. destruct IHa as [Hu' [Hn Hr]]. simpl in *.
+    destruct o.
+    + split; [exact Hu'|]. split; [|discriminate]. intros _. apply osafe_meet_l, Hn, eq_refl.
+    + split; [exact Hu'|]. split; [discriminate|]. intros _. apply osafe_meet_l, Hr, eq_refl.
+    + destruct (IHb g nb rb Eb Hg s' Hu') as [H1 [H2 H3]].
+      split; [exact H1|]. split; intro H; [apply osafe_meet_r, H2, H|apply osafe_meet_r, H3, H].
+  - (* Finally *)
+    destruct (check g a) as [[na ra]|] eqn:Ea; [|discriminate].
+    destruct (check g b) as [[nb rb]|] eqn:Eb; [|discriminate].
+    inversion Hc; subst n r. simpl.
+    specialize (IHa g na ra Ea Hg s Hu).
+    destruct (run name a s) as [o s'] eqn:Er. destruct IHa as [Hu' [Hn Hr]]. simpl in *.
+    specialize (IHb g nb rb Eb Hg s' Hu').
+    destruct (run name b s') as [o2 s2] eqn:Er2. destruct IHb as [Hu2 [Hn2 Hr2]]. simpl in *.
+    split; [exact Hu2|].
+    destruct o2; simpl.
+    + split; intro H.
+      * apply Hn, H.
+      * apply osafe_meet_l, Hr, H.
+    + split; [discriminate|]. intros _. apply osafe_meet_r, Hr2, eq_refl.
+    + split; discriminate.
 Qed.
 
 (* Every file that existed before the call is byte-for-byte what it was,
@@ -162,12 +241,12 @@ Qed.
    initial file system. *)
 Theorem no_clobber_generic p :
   prog_ok p = true ->
-  forall (name : string) (f0 : fsys) (o : list nat),
-    unchanged f0 (fs (snd (run name p (init_st f0 o)))).
+  forall (name : string) (f0 : fsys) (o : list nat) (fu : option nat),
+    unchanged f0 (fs (snd (run name p (init_stf f0 o fu)))).
 Proof.
-  unfold prog_ok. intros H name f0 o.
+  unfold prog_ok. intros H name f0 o fu.
   destruct (check [] p) as [[n r]|] eqn:E; [|discriminate].
-  refine (proj1 (run_sound f0 name p [] n r E _ (init_st f0 o) _)).
+  refine (proj1 (run_sound f0 name p [] n r E _ (init_stf f0 o fu) _)).
   - intros e [].
   - intros q c Hq. exact Hq.
 Qed.
@@ -178,14 +257,14 @@ Definition writes_only (f0 f1 : fsys) (t : list string) : Prop :=
 
 Theorem created_are_new p :
   prog_ok p = true ->
-  forall (name : string) (f0 : fsys) (o : list nat) q,
-    let s1 := snd (run name p (init_st f0 o)) in
+  forall (name : string) (f0 : fsys) (o : list nat) (fu : option nat) q,
+    let s1 := snd (run name p (init_stf f0 o fu)) in
     fs s1 q <> f0 q -> f0 q = None.
 Proof.
-  intros H name f0 o q s1 Hne.
+  intros H name f0 o fu q s1 Hne.
   destruct (f0 q) as [c|] eqn:E; [|reflexivity].
   exfalso. apply Hne. 
-  pose proof (no_clobber_generic p H name f0 o q c E) as Hu. exact Hu.
+  pose proof (no_clobber_generic p H name f0 o fu q c E) as Hu. exact Hu.
 Qed.
 
 Lemma cfg_ok_In cfg : cfg_ok cfg = true ->
@@ -207,3 +286,94 @@ Example unguarded_bad :
   find_witness (Call (Seq (Guard PName) (Create (PAddExt "inp" PName))))
                ["d/res"%string] [[]] = Some ("d/res", "d/res.inp", [])%string.
 Proof. split; vm_compute; reflexivity. Qed.
+
+(* ---- the new constructs: non-vacuity ---- *)
+(* an atomic write through a scratch file is accepted when both names were guarded *)
+Example atomic_write_ok :
+  prog_ok (Call (Seq (Guard (PAddExt "inp" PName))
+            (Seq (Guard (PWithSuffix ".tmp" (PAddExt "inp" PName)))
+            (Seq (Create (PWithSuffix ".tmp" (PAddExt "inp" PName)))
+                 (Rename (PWithSuffix ".tmp" (PAddExt "inp" PName)) (PAddExt "inp" PName)))))) = true.
+Proof. reflexivity. Qed.
+
+(* ... and rejected when the scratch name was not: the model exhibits the lost file *)
+Example atomic_write_unguarded_bad :
+  let p := Call (Seq (Guard (PAddExt "inp" PName))
+            (Seq (Create (PWithSuffix ".tmp" (PAddExt "inp" PName)))
+                 (Rename (PWithSuffix ".tmp" (PAddExt "inp" PName)) (PAddExt "inp" PName)))) in
+  prog_ok p = false /\
+  observe "d/res" p ["d/res.tmp"%string] [] = (0, ["d/res.tmp"%string], ["d/res.inp"%string]).
+Proof. split; vm_compute; reflexivity. Qed.
+
+(* a cleanup handler that unlinks the outputs deletes the very file that made
+   the call refuse: rejected, with the run *)
+Example cleanup_handler_bad :
+  let p := Call (Try (Seq (Guard (PSuffix ".msh" PName)) (Seq (Create (PSuffix ".msh" PName))
+                      (Seq (Guard (PSuffix ".cnt" PName)) (Create (PSuffix ".cnt" PName)))))
+                     (Seq (Delete (PSuffix ".msh" PName)) (Seq (Delete (PSuffix ".cnt" PName)) Raise))) in
+  prog_ok p = false /\
+  observe "res" p ["res.cnt"%string] [] = (1, ["res.cnt"%string], []).
+Proof. split; vm_compute; reflexivity. Qed.
+
+(* ... and accepted when it removes only what was guarded before the try *)
+Example cleanup_handler_ok :
+  prog_ok (Call (Seq (Guard (PSuffix ".msh" PName))
+                 (Try (Seq (Create (PSuffix ".msh" PName)) (If Raise Skip))
+                      (Seq (Delete (PSuffix ".msh" PName)) Raise)))) = true.
+Proof. reflexivity. Qed.
+
+Example finally_ok :
+  prog_ok (Call (Seq (Guard PName) (Finally (Seq (Create PName) (If Raise Return)) (Append PName)))) = true.
+Proof. reflexivity. Qed.
+
+(* an exception that strikes before the second file event stops the run there *)
+Example fuel_stops :
+  let '(o, s1) := run "res" (Seq (Guard PName) (Create PName)) (init_stf (fs_of_list []) [] (Some 1)) in
+  (outcome_code o, rev (trace s1)) = (1, ["G res"%string]).
+Proof. vm_compute. reflexivity. Qed.
+
+(* pathlib.Path.with_suffix on the cases that matter *)
+Example with_suffix_cases :
+  map (fun s => with_suffix s ".tmp")
+      ["d/res.inp"; "d/res"; "d/.hid"; "d.x/res"; "r."; "a.b.c"; "d/e.inp/x.v2"]%string
+  = ["d/res.tmp"; "d/res.tmp"; "d/.hid.tmp"; "d.x/res.tmp"; "r..tmp"; "a.b.tmp"; "d/e.inp/x.tmp"]%string.
+Proof. vm_compute. reflexivity. Qed.
+
+(* ---- the name that is opened carries the extension, however the caller spelled it ---- *)
+Lemma ends_with_cons c r suf :
+  ends_with (String c r) suf = if String.eqb (String c r) suf then true else ends_with r suf.
+Proof. reflexivity. Qed.
+
+Lemma ends_with_refl t : ends_with t t = true.
+Proof. destruct t; [reflexivity|]. rewrite ends_with_cons, String.eqb_refl. reflexivity. Qed.
+
+Lemma ends_with_app s t : ends_with (s ++ t) t = true.
+Proof.
+  induction s as [|c s IH].
+  - apply ends_with_refl.
+  - change (String c s ++ t)%string with (String c (s ++ t)).
+    rewrite ends_with_cons, IH. destruct (String.eqb (String c (s ++ t)) t); reflexivity.
+Qed.
+
+Lemma app_assoc_str a b c : ((a ++ b) ++ c = a ++ (b ++ c))%string.
+Proof. induction a as [|x a IH]; simpl; [reflexivity|rewrite IH; reflexivity]. Qed.
+
+Theorem addext_ends_with name ext p :
+  ends_with (peval name (PAddExt ext p)) ext = true.
+Proof.
+  unfold PAddExt. cbn [peval].
+  destruct (ends_with (peval name p) ext) eqn:E; [exact E|].
+  rewrite <- (app_assoc_str (peval name p) "." ext). apply ends_with_app.
+Qed.
+
+(* ... and a name that already ends with the extension is used as typed *)
+Theorem addext_idempotent name ext p :
+  peval name (PAddExt ext (PAddExt ext p)) = peval name (PAddExt ext p).
+Proof.
+  pose proof (addext_ends_with name ext p) as H.
+  change (peval name (PAddExt ext (PAddExt ext p)))
+    with (if ends_with (peval name (PAddExt ext p)) ext
+          then peval name (PAddExt ext p)
+          else (peval name (PAddExt ext p) ++ ("." ++ ext))%string).
+  rewrite H. reflexivity.
+Qed.
